@@ -21,12 +21,14 @@ pub const KINDS: [Kind; 10] = [Kind::UniMoveAtomic, Kind::UniMoveFullSync, Kind:
                                Kind::MultiArcAtomic, Kind::MultiArcFullSync, Kind::MultiArcCrossbeam, Kind::MultiOgreAtomic, Kind::MultiOgreFullSync];
 
 #[derive(Clone, Debug)]
-pub struct Cfg { pub kind: Kind, pub n: usize, pub m: usize, pub droppy: bool, pub streams: usize, pub entries: Vec<Entry>, pub per_prod: u32, pub stop_after: Vec<Option<u32>>, pub keep_max: u32, pub dropper: bool }
+pub struct Cfg { pub kind: Kind, pub n: usize, pub m: usize, pub droppy: bool, pub streams: usize, pub entries: Vec<Entry>, pub per_prod: u32, pub stop_after: Vec<Option<u32>>, pub keep_max: u32, pub dropper: bool,
+    /// (Multi kinds) a further thread creates and drops listeners while the sends are going on, keeps some of the handles those listeners yielded beyond the listener's own life
+    pub churn: bool }
 impl Cfg {
     pub fn json(&self) -> J {
         J::obj().with("kind", J::s(self.kind.name())).with("N", J::i(self.n as i64)).with("M", J::i(self.m as i64)).with("payload_with_destructor", J::Bool(self.droppy)).with("streams", J::i(self.streams as i64))
             .with("producers", J::Arr(self.entries.iter().map(|e| J::s(e.name())).collect())).with("events_per_producer", J::i(self.per_prod as i64))
-            .with("consumers_stop_after(leftovers_at_teardown)", J::s(format!("{:?}", self.stop_after))).with("handles_kept_at_most", J::i(self.keep_max as i64)).with("clones_dropped_on_another_thread", J::Bool(self.dropper))
+            .with("consumers_stop_after(leftovers_at_teardown)", J::s(format!("{:?}", self.stop_after))).with("handles_kept_at_most", J::i(self.keep_max as i64)).with("clones_dropped_on_another_thread", J::Bool(self.dropper)).with("listeners_created_and_dropped_during_the_sends", J::Bool(self.churn))
     }
 }
 
@@ -39,7 +41,9 @@ pub fn draw_cfg(rng: &mut Rng, only: Option<&str>, lane: Lane) -> Cfg {
     let kind = *rng.pick(&kinds);
     let droppy = rng.chance(4, 5);
     let (n, m) = *rng.pick(&chan::cfgs_for(kind, droppy));
-    let streams = 1 + rng.below(m.min(3) as u64) as usize;
+    let mut streams = 1 + rng.below(m.min(3) as u64) as usize;
+    let churn = kind.is_multi() && m >= 2 && rng.chance(1, 3);
+    if churn { streams = streams.min(m - 1) }
     let mut nprod = 1 + rng.below(3) as usize;
     let mut per_prod = if lane == Lane::Ser { 1 + rng.below(4) as u32 } else { 20 + rng.below(600) as u32 };
     if kind.never_rejects() { while per_prod as usize * nprod > n { if per_prod > 1 { per_prod -= 1 } else { nprod -= 1 } } }
@@ -48,7 +52,7 @@ pub fn draw_cfg(rng: &mut Rng, only: Option<&str>, lane: Lane) -> Cfg {
     if kind == Kind::UniMoveCrossbeam && lane == Lane::Ser { es = vec![Entry::Send] }
     let entries: Vec<Entry> = (0..nprod).map(|_| *rng.pick(&es)).collect();
     let stop_after: Vec<Option<u32>> = (0..streams).map(|_| if rng.chance(1, 3) { Some(rng.below(1 + (per_prod * nprod as u32).min(6) as u64) as u32) } else { None }).collect();
-    Cfg { kind, n, m, droppy, streams, entries, per_prod, stop_after, keep_max: rng.below(n as u64 + 1).min(4) as u32, dropper: rng.chance(2, 3) }
+    Cfg { kind, n, m, droppy, streams, entries, per_prod, stop_after, keep_max: rng.below(n as u64 + 1).min(4) as u32, dropper: rng.chance(2, 3), churn }
 }
 
 #[derive(Default)]
@@ -118,6 +122,27 @@ pub fn one_run(cfg: &Cfg, rc: &RunCfg, acc: &mut Acc) -> (Option<J>, u64, bool) 
         let d = done.clone();
         bodies.push(Box::new(move || { let _g = OnExit(Some(move || { d.fetch_add(1, SeqCst); })); inner() }));
     }
+    if cfg.churn {
+        // listeners that come and go during the sends; the handles they were given may outlive them (never the channel). With listeners changing, "who is owed what" is
+        // C17's subject: here only the payload-lifetime monitors count (destroyed twice / while a handle is held / on garbage, storage changed under a handle, sanitizer reports)
+        let (ch, d, seed, lane) = (ch.clone(), done.clone(), rc.seed, rc.lane);
+        bodies.push(Box::new(move || {
+            let w = chan::noop_waker();
+            let mut rng = Rng::new(seed ^ 0xC4_05);
+            let mut kept: Vec<Item> = Vec::new();
+            let rounds = if lane == Lane::Free { 400 } else { 4 };
+            for _ in 0..rounds {
+                let mut s = ch.create_stream();
+                sched::op_done();
+                for _ in 0..rng.below(4) { if let Poll::Ready(Some(it)) = s.poll(&w) { if rng.chance(1, 2) { kept.push(it) } else { drop(it) } } sched::op_done() }
+                drop(s);
+                sched::op_done();
+                while kept.len() > 2 { let h = kept.remove(0); drop(h); sched::op_done() }
+                if d.load(SeqCst) == nprod { break }
+            }
+            while let Some(h) = kept.pop() { drop(h); sched::op_done() }
+        }));
+    }
     if cfg.dropper {
         let (mb, cd, ns) = (mailbox.clone(), consumers_done.clone(), cfg.streams as u32);
         bodies.push(Box::new(move || {
@@ -143,7 +168,8 @@ pub fn one_run(cfg: &Cfg, rc: &RunCfg, acc: &mut Acc) -> (Option<J>, u64, bool) 
     for l in &plogs { accepted.extend(l.accepted.lock().unwrap().iter()) }
     let complete = rep.outcome == Outcome::Done;
     let mut leftovers = 0usize;
-    if complete && probs.is_empty() {
+    if cfg.churn { acc.count("runs_with_listeners_created_and_dropped_during_the_sends", 1) }
+    if complete && probs.is_empty() && !cfg.churn {
         // quiescent: every handle was released. Delivered-and-released events must have been destroyed exactly once by now.
         let mut delivered: HashMap<u64, usize> = HashMap::new();
         for l in &clogs { for (id, valid) in l.yields.lock().unwrap().iter() { if !*valid { probs.push(("corrupt".into(), format!("a corrupted payload was delivered (id field {id:#x})"))) } *delivered.entry(*id).or_insert(0) += 1 } }
@@ -191,7 +217,7 @@ pub fn run(args: &Args, acc: &mut Acc) { run_loop(args, acc, single) }
 fn single(args: &Args, acc: &mut Acc, seed: u64, verbose: bool) {
     let mut rng = Rng::new(seed);
     let cfg = draw_cfg(&mut rng, args.only.as_deref(), args.lane);
-    let nthreads = cfg.streams + cfg.entries.len() + cfg.dropper as usize;
+    let nthreads = cfg.streams + cfg.entries.len() + cfg.dropper as usize + cfg.churn as usize;
     let mut rc = match args.lane {
         Lane::Ser => RunCfg::ser(seed, draw_strategy(&mut rng, nthreads, PAUSE_SITES, 300)),
         Lane::Free => RunCfg::free(seed, rng.below(3) as u8),
